@@ -1,7 +1,7 @@
 import TypstyleModel.Model.Comment
 /-! `pretty/layout/list.rs`: `ListStylist`. -/
 namespace Typstyle
-open Pretty
+open Twin
 
 inductive LItem where
   | comment (d : Doc)
@@ -74,7 +74,7 @@ def LS.trivia (e : Env) (s : LS) (n : ANode) : M LS := do
   if isCommentKind k then
     let s := { s with hasComment := true }
     let s := if k == .lineComment then { s with hasLineComment := true, fold := .never } else s
-    pure { s with free := s.free ++ [← convComment e n] }
+    pure { s with free := s.free ++ [← convCommentT e n] }
   else if k == .comma then pure (s.tryAttach).1
   else if k == .space then
     let cnt := countLinebreaks n.text
@@ -168,7 +168,7 @@ def LS.print (e : Env) (s : LS) (sty : ListStyle) : Doc :=
   match fold with
   | .never =>
     let inner := (s.items.foldl (neverStep sty count) (if sty.tightDelim then Doc.nil else hardline, 0)).1
-    let inner := if !sty.noIndent then inner.nst e.cfg.tab else inner
+    let inner := if !sty.noIndent then inner.nstTab else inner
     inner.enclose sty.d0 sty.d1
   | .always =>
     let inner := (s.items.foldl (alwaysStep sty count s.realCount trailing) (Doc.nil, 0, 0)).1
@@ -178,7 +178,7 @@ def LS.print (e : Env) (s : LS) (sty : ListStyle) : Doc :=
     else inner.enclose sty.d0 sty.d1
   | .fit =>
     let inner := (s.items.foldl (fitStep sty count s.realCount trailing) (if sty.tightDelim then Doc.nil else line_, 0, 0)).1
-    let inner := if !sty.noIndent then inner.nst e.cfg.tab else inner
+    let inner := if !sty.noIndent then inner.nstTab else inner
     if isSingle && sty.omitDelimSingle then inner.grp
     else if sty.omitDelimFlat then (inner.enclose (Doc.falt sty.d0 .nil) (Doc.falt sty.d1 .nil)).grp
     else if sty.addDelimSpace then
